@@ -6,6 +6,7 @@ from pathlib import Path
 from typing import Final, Optional, cast
 
 from zorg import APP_NAME
+from zorg.shared.common import atomic_write_text
 
 _UNSUPPORTED_ZID_CHARS: Final[tuple[str, ...]] = (
     "I",
@@ -55,8 +56,9 @@ class ZIDManager:
 
     def _write_to_disk(self, next_id_map: dict[str, str]) -> None:
         """Writes the next ID map back to disk."""
-        with self._next_ids_path.open("w") as f:
-            json.dump(dict(next_id_map), f, indent=4)
+        atomic_write_text(
+            self._next_ids_path, json.dumps(dict(next_id_map), indent=4)
+        )
 
     @property
     def _next_id_map(self) -> dict[str, str]:
